@@ -12,7 +12,17 @@ import (
 // Instr draws one instruction (bottom-up: its actions are complete before they
 // are added; prepend is exercised).
 func (g *G) Instr() (of.Instruction, *spec.Node, string) {
-	switch g.Pick("instrkind", 6) {
+	switch g.Pick("instrkind", 8) {
+	case 6:
+		// no constructor: built from the exported fields, the way NewInstr* fill them
+		id := g.U32("meter_id")
+		in := &of.InstrMeter{MeterId: id}
+		in.Type, in.Length = of.InstrType_METER, 8
+		return in, spec.N("instr.meter", spec.U("meter_id", uint64(id))), "meter"
+	case 7:
+		in := new(of.InstrActions)
+		in.Type, in.Length = of.InstrType_CLEAR_ACTIONS, 8
+		return in, spec.N("instr.clear_actions"), "clear_actions"
 	case 0:
 		t := g.U8("table")
 		return of.NewInstrGotoTable(t), spec.N("instr.goto_table", spec.U("table_id", uint64(t))), "goto_table"
